@@ -39,7 +39,7 @@ def to_term(case, obs):
         h.append((kind_term(op, ob),
                   C("mkI", opt(ob["val"]), ob["oracle"], list(ob["view"]), Nat(ob["getter"]),
                     [(opt(e[0]), e[1]) for e in ob["events"]], Nat(d), opt(ob["cache"]))))
-    return C("mkCase", bool(case["cached"]), (list(obs["init_view"]), obs["init_oracle"]), h)
+    return C("mkCase", bool(case["cached"]), not case.get("added"), (list(obs["init_view"]), obs["init_oracle"]), h)
 
 
 def shape(op):
@@ -54,7 +54,10 @@ def shape(op):
 
 def key_fn(case, obs, step, clause):
     return "%s/%s/%s/%s" % (CLAUSE.get(clause, clause), case["prop"],
-                            ("cached-in-subclass" if case.get("sub") else "cached") if case["cached"] else "uncached",
+                            ("added-by-add_%strait-" % ("class_" if case["added"] == "class" else "") if case.get("added")
+                             else "") +
+                            (("cached-in-subclass" if case.get("sub") else "redeclared-in-subclass" if case.get("redecl")
+                              else "cached") if case["cached"] else "uncached"),
                             shape(case["ops"][step]))
 
 
@@ -67,7 +70,7 @@ def describe(case, obs, step, clause):
 
 
 def nontrivial(case, obs):
-    sig = json.dumps([case["prop"], case["cached"], case.get("kwargs"), case.get("sub"), case["init"], case["ops"]], sort_keys=True)
+    sig = json.dumps([case["prop"], case["cached"], case.get("kwargs"), case.get("sub"), case.get("redecl"), case.get("added"), case["init"], case["ops"]], sort_keys=True)
     nt = any(o["delivered"] for o in obs["hist"])
     return sig, nt
 
@@ -109,7 +112,8 @@ def gen_case(rnd, ctx, maxlen):
             op = ["Unlisten"]
             ls -= 1
         elif r < 0.475:
-            op = rnd.choice([["Copy", "pickle", rnd.randint(0, 5)], ["Copy", "deepcopy"], ["Copy", "clone"]])
+            op = rnd.choice([["Copy", "pickle", rnd.randint(0, 5)], ["Copy", "deepcopy"], ["Copy", "clone"],
+                             ["Copy", "shallow"]])
             ls = 0
         else:
             # objects near the root and relevant traits are preferred
@@ -190,9 +194,11 @@ def gen_case(rnd, ctx, maxlen):
     ctx.count("history-length:%02d" % len(ops))
     sub = cached and pname != "xscalar" and rnd.random() < 0.2
     ctx.count("subclass-overriding-getter-with-cached_property:%s" % sub)
+    redecl = cached and not sub and pname == "scalar" and rnd.random() < 0.5
+    ctx.count("property-redeclared-in-subclass:%s" % redecl)
     kw = rnd.random() < 0.3
     ctx.count("constructed-with-kwargs:%s" % kw)
-    return dict(prop=pname, cached=cached, n=n, init=init, ops=ops, kwargs=kw, sub=sub)
+    return dict(prop=pname, cached=cached, n=n, init=init, ops=ops, kwargs=kw, sub=sub, redecl=redecl)
 
 
 def corpus():
@@ -229,6 +235,16 @@ def corpus():
         cs.append(dict(prop="raw", cached=cached, n=2, init=dup,
                        ops=[["Read"], ["Listen"], ["SetRaw", 0, 1], ["Read"], ["SetRaw", 0, 2], ["Read"], ["SetRaw", 0, 0],
                             ["Read"], ["SetRaw", 0, 1], ["Read"], ["SetRaw", 0, 1], ["Read"], ["SetRaw", 0, 4], ["Read"]]))
+    # LISTED FINDING (always included): an observed Property added with add_trait / add_class_trait gets no observers
+    for how in ("instance", "class"):
+        for cached in (True, False):
+            cs.append(dict(prop="scalar", cached=cached, added=how, n=2, init=dup,
+                           ops=[["Read"], ["Listen", "observe"], ["Set", 0, "value", 4], ["Read"], ["Set", 0, "value", 5],
+                                ["Read"], ["Read"]]))
+    # an inherited observed property redeclared in a subclass with another dependency
+    cs.append(dict(prop="scalar", cached=True, redecl=True, n=2, init=dup,
+                   ops=[["Read"], ["Set", 0, "value", 4], ["Read"], ["Set", 0, "other", 2], ["Read"], ["Listen", "observe"],
+                        ["Set", 0, "value", 5], ["Read"], ["Set", 0, "other", 3], ["Read"], ["Read"]]))
     # a subclass overriding only the getter of an inherited observed property with @cached_property
     for pname in ("scalar", "kids", "multi"):
         cs.append(dict(prop=pname, cached=True, sub=True, n=2, init=dup,
@@ -247,7 +263,7 @@ def run(ctx):
         "matched dependency and never otherwise (property C08); the run checks it on every step (correspondence code 8)",
         "modelled, not verified: pickle / deepcopy / clone_traits (the model's Copy step is: cache empty, no listeners)",
     ]
-    ctx.cov["rule"] = ("random histories (reads, listener add/remove, copies by pickle 0-5 / deepcopy / clone_traits, "
+    ctx.cov["rule"] = ("random histories (reads, listener add/remove, copies by pickle 0-5 / deepcopy / clone_traits / copy.copy, "
                        "mutations of scalar, Instance, List, Dict, Set traits and their items anywhere in a DAG pool of 2-5 "
                        "objects with shared and repeated items, relevant traits preferred) for 12 dependency shapes (incl. a property that observes another cached property and two that depend on which objects a dict / set holds) x cached / "
                        "not cached; a case is non-trivial if the property's handler fired at least once; distinct = distinct "
